@@ -14,7 +14,8 @@ STRATEGIES = ["reliable", "default_pacbio", "sensitive_pacbio", "fl_pacbio", "de
 
 
 def noisy_world(seed, n_chroms=3):
-    w = world2.rich_world(seed, n_chroms=n_chroms, genes_per_chrom=3, reads_per_t=6, hidden_cov=7, unmapped=1, extra_len=70000)
+    w = world2.rich_world(seed, n_chroms=n_chroms, genes_per_chrom=3, reads_per_t=6, hidden_cov=7, unmapped=1, extra_len=70000,
+                          zoo=("twins", "contested", "alt_terminal", "shifted_site", "shared_chain", "same_coords"))
     rng = w.rng
     # genes whose hidden isoform is a new combination of annotated introns (.nic)
     for ci, chrom in enumerate(w.chrom_order):
